@@ -530,6 +530,9 @@ def run_c29(ctx, pid):
             distinct.update((label,) + tuple(e["ids"]) for e in j.rows if e["op"] == "dlv")
         total["messages"] += n
         total["batches_gt1"] += rs.get("batches_gt1", 0)
+        if rs.get("aborted"):   # the replay gave up after repeated watchdog expiries: coverage collapsed, say so (as C27 does)
+            infra.append("the replay gave up after repeated watchdog expiries (%s, drift %s of %s walks); no recorded event "
+                         "contradicts the property" % (label, rs.get("drift"), rs.get("behaviours")))
         ctx.log("%-10s %s | histories %d messages with restored metadata %d, mismatches %d, stuck %d"
                 % (label, {k: v for k, v in rs.items() if k not in ("first_drift", "events")}, j.histories, n, len(mdm), j.stuck))
         for line, mid, got in mdm:
